@@ -711,8 +711,8 @@ class Engine:
         st.conds.append((v, 0))
         return [(s1, not neg), (st, neg)]
 
-    ADAPTER_CONSUMERS = ('for_each', 'any', 'all', 'find', 'position', 'fold', 'try_fold', 'retain', 'retain_mut', 'extend')
-    ADAPTER_LAZY_CLOSURE = ('filter', 'map', 'flat_map')
+    ADAPTER_CONSUMERS = ('for_each', 'any', 'all', 'find', 'position', 'fold', 'try_fold', 'retain', 'retain_mut', 'extend', 'count')
+    ADAPTER_LAZY_CLOSURE = ('filter', 'map', 'flat_map', 'take_while')
     ADAPTER_LAZY_PLAIN = ('cloned', 'copied', 'enumerate', 'rev', 'by_ref')
     ADAPTER_SOURCES = ('iter', 'into_iter', 'iter_mut')
 
@@ -767,6 +767,12 @@ class Engine:
 
     def _literal_elements(self, st, source):
         """elements of an iteration source that is a literal / constant array of at most 8 items, else None"""
+        if self.concrete and source[0] == 'agg' and source[1] == 'adt' and str(source[2]).endswith('::Range'):
+            f_ = dict(source[4])
+            lo, hi = f_.get('start'), f_.get('end')
+            if lo and hi and is_const(lo) and is_const(hi) and isinstance(lo[1], int) and isinstance(hi[1], int) and 0 <= hi[1] - lo[1] <= 256:
+                return [C(i_) for i_ in range(lo[1], hi[1])]
+            return None
         if source[0] != 'call' or len(source[2]) != 1:
             return None
         sb = source[1].rsplit('::', 1)[-1]
@@ -790,7 +796,7 @@ class Engine:
             else:
                 by_ref = by_ref or a[0] == 'ref'
                 a = a[1]
-        if a[0] == 'agg' and a[1] == 'array' and 0 < len(a[4]) <= 8:
+        if a[0] == 'agg' and a[1] == 'array' and 0 < len(a[4]) <= (64 if self.concrete else 8):
             return [(('ref', ('K', x)) if by_ref else x) for _, x in a[4]]
         return None
 
@@ -807,6 +813,14 @@ class Engine:
                 return None
             parsed = self._parse_chain(st, args[1])
             if parsed is None or not any(len(s_) == 2 for s_ in parsed[1]):
+                return None
+            clo = None
+        elif base == 'count':
+            # only interpreted on constant inputs (partial evaluation): the number of elements the chain yields
+            if not self.concrete or 'Iterator' not in name or len(args) != 1:
+                return None
+            parsed = self._parse_chain(st, args[0])
+            if parsed is None:
                 return None
             clo = None
         else:
@@ -827,8 +841,10 @@ class Engine:
         uid = next(self.uid)
         marker = ('adapter', uid)
         closures = [s_[1] for s_ in stages if len(s_) == 2] + ([clo] if clo is not None else [])
-        elems = self._literal_elements(st, source) if self.unroll else None
-        acc_key = 'acc%d' % uid if base in ('fold', 'try_fold') else None
+        elems = self._literal_elements(st, source) if (self.unroll or self.concrete) else None
+        if base == 'count' and elems is None:
+            return None
+        acc_key = 'acc%d' % uid if base in ('fold', 'try_fold', 'count') else None
         wrap = None
         if base == 'try_fold':
             rty = self._closure_fn(clo).local_ty(0)
@@ -857,7 +873,7 @@ class Engine:
             st.events.append(('loop_head', fn.name, marker, before, len(st.conds)))
             st.events.append(('adapter', base, marker, source, tuple(s_[0] for s_ in stages)))
         elif acc_key:
-            st.frames[fid][acc_key] = args[1]
+            st.frames[fid][acc_key] = args[1] if base != 'count' else C(0)
 
         def finish_exit(s_, value):
             self._write_place(s_, fn, fid, t['dest'], value)
@@ -898,6 +914,9 @@ class Engine:
                             out.extend(cont(s3))
                     return out
                 return call_closure(s_, clo, [('ref', ('K', elem))], k)
+            if base == 'count':
+                s_.frames[fid][acc_key] = C(s_.frames[fid][acc_key][1] + 1)
+                return cont(s_)
             if extend:
                 push = 'smallvec::SmallVec::<A>::push' if 'SmallVec' in name else 'std::vec::Vec::<T, A>::push'
                 s_.epoch += 1
@@ -951,6 +970,14 @@ class Engine:
                         out.extend(stage(s3, i + 1, elem, pos, cont, sl, sink) if truth else cont(s3))
                     return out
                 return call_closure(s_, sg[1], [('ref', ('K', elem))], k)
+            if sg[0] == 'take_while':
+                # the first element that fails the predicate ends the whole iteration
+                def k(s2, v):
+                    out = []
+                    for s3, truth in self._fork_bool(s2, v):
+                        out.extend(stage(s3, i + 1, elem, pos, cont, sl, sink) if truth else finish_exit(s3, exit_value(s3)))
+                    return out
+                return call_closure(s_, sg[1], [('ref', ('K', elem))], k)
             if sg[0] == 'flat_map':
                 # the closure yields an inner iterator: its elements flow on through the remaining outer stages
                 def k(s2, v):
@@ -986,6 +1013,8 @@ class Engine:
                 return C(base == 'all')
             if base in ('find', 'position'):
                 return mk_adt(OPTION, 'None', [])
+            if base in ('for_each',) or in_place or extend:
+                return UNIT
             acc = s_.frames[fid][acc_key] if elems is not None else ('lv', marker, acc_key)
             return mk_adt(wrap[0], wrap[1], [('0', acc)]) if wrap else acc
 
